@@ -34,7 +34,6 @@ template <typename ExcT>
 void expect_raises_fn(const char* file, uint64_t line, std::function<void()> fn) {
   try {
     fn();
-    expect_generic(false, "expected exception, but none raised", file, line);
   } catch (const ExcT&) {
     return;
   } catch (const std::exception& e) {
@@ -46,6 +45,11 @@ void expect_raises_fn(const char* file, uint64_t line, std::function<void()> fn)
     // std::exception anyway.
     expect_generic(false, "incorrect exception type raised", file, line);
   }
+  // Every handler above returns or throws, so we get here only if fn returned
+  // normally. This must be outside the try block: expectation_failed derives
+  // from std::logic_error, so the handlers would swallow it when ExcT is one of
+  // its base classes.
+  expect_generic(false, "expected exception, but none raised", file, line);
 }
 
 template <>
